@@ -108,7 +108,9 @@ def rule_FR1(ctx, rep):
         raise AnalysisError('FR1: header unpack is not inside the frame loop')
     lp = loops[0]
     bounds = _established_len(rcv, hdr, pm, {'data', 'self.bytes'}, stop=lp)
-    consts = [(b.c, g) for b, g in bounds if b.is_const()]
+    # (a reader that walks the buffer with a running offset reads the header at that offset: the bytes known to lie behind it count)
+    hoff = to_lin(hdr.args[2], opaque=False) if len(hdr.args) > 2 else Lin(0)
+    consts = [((b - hoff).c, g) for b, g in bounds if hoff is not None and (b - hoff).is_const()]
     if consts:
         c, g = max(consts, key=lambda z: z[0])
         if c == hs:
@@ -154,7 +156,9 @@ def rule_FR1(ctx, rep):
         pfmt, prest = _const_prefix(pay.args[0])
         okp = pfmt == '' and prest and len(prest) == 2 and isinstance(prest[0], ast.FormattedValue) and norm(prest[0].value) == sizev \
             and isinstance(prest[1], ast.Constant) and prest[1].value == 's'
-        off = const_int(pay.args[2]) if len(pay.args) > 2 else 0
+        offl = to_lin(pay.args[2], opaque=False) if len(pay.args) > 2 else Lin(0)
+        offl = offl - hoff if offl is not None and hoff is not None else None          # relative to where the header was read
+        off = int(offl.c) if offl is not None and offl.is_const() else None
         if okp and off == hs:
             rep.ok('FR1', rcv, pay, f'payload read at offset {hs} with the width from the header')
         else:
@@ -344,8 +348,12 @@ def rule_FR2(ctx, rep):
         if isinstance(s, ast.While):
             g = _len_guard(s.test, bufnames)
             inner = st.copy()
+            # a name assigned in the loop body has an unknown value at the top of an iteration (a running offset, ..)
+            for x_ in ast.walk(s):
+                if isinstance(x_, ast.Name) and isinstance(x_.ctx, ast.Store):
+                    inner.env[x_.id] = Lin.sym(f'{x_.id}@{s.lineno}')
             if g is not None and g[0] in (ast.GtE, ast.Gt):
-                E = to_lin(g[1], st.env)
+                E = to_lin(g[1], inner.env)
                 # at the top of every iteration only the guard is known
                 inner.lbs = [E + (1 if g[0] is ast.Gt else 0)]
             else:
@@ -565,7 +573,8 @@ def rule_FR5(ctx, rep):
     lp = [a for a in ancestors(f['hdr'], pm) if isinstance(a, ast.While)][0]
     g = lp.test
     # what is known about the buffer length where the header is read (loop test, enclosing `if`, early exits alike)
-    consts = [(b.c, gd) for b, gd in _established_len(rcv, f['hdr'], pm, {'data', 'self.bytes'}, stop=lp) if b.is_const()]
+    hoff = to_lin(f['hdr'].args[2], opaque=False) if len(f['hdr'].args) > 2 else Lin(0)
+    consts = [((b - hoff).c, gd) for b, gd in _established_len(rcv, f['hdr'], pm, {'data', 'self.bytes'}, stop=lp) if hoff is not None and (b - hoff).is_const()]
     admits = max(c for c, _ in consts) if consts else None
     if admits is not None and admits <= f['hsize']:
         rep.ok('FR5', rcv, g, 'a buffer holding exactly one header (empty payload) enters the loop')
@@ -590,6 +599,19 @@ def rule_FR5(ctx, rep):
         frame = to_lin(dels[0].targets[0].slice.upper, env, opaque=False)
         if frame is not None and not frame.t:
             frame = None        # a constant: not a frame length
+    # running-offset form: the header is read at a running offset that advances by the frame length per iteration, and the
+    # buffer is cut once, by that offset, after the loop
+    base = Lin(0)
+    if frame is None and hoff is not None and len(hoff.syms()) == 1 and hoff.c == 0:
+        ov = next(iter(hoff.syms()))
+        incs = [s_ for s_ in iter_nodes(lp) if isinstance(s_, ast.AugAssign) and isinstance(s_.op, ast.Add) and norm(s_.target) == ov]
+        after = [s_ for s_ in iter_nodes(rcv.node) if isinstance(s_, ast.Delete) and astq.position(s_) > astq.position(lp) and isinstance(s_.targets[0], ast.Subscript)
+                 and isinstance(s_.targets[0].slice, ast.Slice) and s_.targets[0].slice.lower is None and s_.targets[0].slice.upper is not None
+                 and norm(s_.targets[0].slice.upper) == ov]
+        if len(incs) == 1 and len(after) == 1 and any(incs[0] is s_ for s_ in lp.body):
+            fr_ = to_lin(incs[0].value, env, opaque=False)
+            if fr_ is not None and fr_.t:
+                frame, base, dels = fr_, Lin.sym(ov), [incs[0]]
     exits = [s for s in iter_nodes(lp) if isinstance(s, (ast.Break, ast.Return, ast.Continue))]
     for e in exits:
         ifs = enclosing_ifs(e, pm, stop=lp)
@@ -598,9 +620,9 @@ def rule_FR5(ctx, rep):
             t = ifs[0][0].test
             lg2 = _len_guard(t, {'data', 'self.bytes'})
             need = to_lin(lg2[1], env, opaque=False) if lg2 is not None else None
-            if lg2 is not None and lg2[0] is ast.Lt and frame is not None and need == frame:
+            if lg2 is not None and lg2[0] is ast.Lt and frame is not None and need == frame + base:
                 good = True
-            elif lg2 is not None and lg2[0] is ast.Lt and need is not None and need.is_const() and need.c <= f['hsize']:
+            elif lg2 is not None and lg2[0] is ast.Lt and need is not None and (need - base).is_const() and (need - base).c <= f['hsize']:
                 good = True       # fewer bytes than one header: no complete frame can be buffered
         if good and (isinstance(e, ast.Break) or (isinstance(e, ast.Return) and e.value is None and bufalias0)):
             rep.ok('FR5', rcv, ifs[0][0].test, 'the loop is left only when fewer bytes than one complete frame are buffered')
